@@ -351,6 +351,8 @@ def numpy_to_python_type(data):
     for key, val in data.items():
         # in data there is keys as 'samples' which is actually a dictionary
         if isinstance(val, dict):
+            # convert a copy: the dictionary may be the sample object's own
+            val = data[key] = dict(val)
             for nested_key, nested_val in val.items():
                 is_numpy = type(nested_val)
                 data_type = str(is_numpy)
